@@ -510,7 +510,7 @@ func main() {
 		Rule: "complete garbler/evaluator sessions of the real code (circuit.Garbler, circuit.Evaluator, ot.*, p2p.Conn) under the deterministic default schedule of the cooperative scheduler (a hang is a detected deadlock): every circuit with input widths (n0,n1) in {1,2}^2 and 1 gate (a stride of the 2-gate ones) on ALL input pairs; structured circuits for (n0,n1) in {1,2,3,5,8,9}^2 x 6 output signatures; compiled programs with multi-value returns and odd widths (int1, uint3, int9, uint65), uint520 inputs crossing the 512-row OT-extension chunk; OT in {Chou-Orlandi, COT, COT-malicious, RSA-1024 (small inputs), ideal}; transport fragmentation: constant chunks {1,2,3,5,16,17,4096} and a single cut at EVERY byte offset of the transcript. Oracle: no error, no deadlock, garbler's outputs == evaluator's outputs == truth-table evaluation split per declared output. " +
 			"distinct_nontrivial = distinct (circuit, inputs, OT, regime) sessions that reached the oracle",
 		Assumptions: []string{
-			"p2p is rewritten onto the scheduler at check time; only the default schedule is run here (schedule exploration of the connection layer is C11's subject)",
+			"p2p is rewritten onto the scheduler at check time; all sessions run under the default schedule except the schedule part: two sessions under EVERY schedule with <= 1 preemption (thorough 2) and one non-default free switch (counters schedule_executions / schedule_transitions); the connection layer's own schedule space is C11's subject",
 			"RSA sessions are not bit-reproducible (rsa.GenerateKey) and are compared on outputs only",
 		},
 		Work:           work,
